@@ -47,8 +47,13 @@ def cz(t):
     return canon(t, IMMUT)
 
 
+def _not_memory(p):
+    """a pointer made from nothing (NonNull::dangling()): a write of a zero-sized value through it touches no memory"""
+    return p is not None and "dangling" in show(p) and not term_contains(p, lambda x: tag(x) in ("param", "heap", "field", "upvar", "phi", "load"))
+
+
 def arena_writes(res):
-    return [e for e in res.log if is_raw_write(e)]
+    return [e for e in res.log if is_raw_write(e) and not (e.get("args") and _not_memory(e["args"][0]))]
 
 
 def len_stores(res):
@@ -246,6 +251,11 @@ def b6(ctx):
             yield Ob(key_of("C14-B6", b.path, "len-in-capacity"), ok_len,
                      "new len %s <= capacity(): %s" % ([short(cz(s["value"]), 100) for s in ls], "proved" if ok_len else "NOT proved"), ctx.loc(e),
                      {"facts": sorted(show(f) for f in fs if f[0] == "cmp")[:4]})
+            # "a pointer aligned for T inside the buffer": T is not zero-sized on this path, so at least one byte of the buffer must lie behind the pointer
+            inside = bool(ls) and all(order.le(add(cz(s["value"]), const(1)), cap_term()) for s in ls)
+            yield Ob(key_of("C14-B6", b.path, "pointer-inside-buffer"), inside,
+                     "new len %s < capacity(): %s" % ([short(cz(s["value"]), 100) for s in ls], "proved" if inside else
+                                                      "NOT proved - when the padding uses up the rest of the buffer the Ok pointer is one past its end (the first byte of the next allocation)"), ctx.loc(e))
         for e in res.log:
             if e["kind"] == "ret0" and not e["chain"] and tag(e["value"]) == "variant" and e["value"][2] == "Err":
                 before = [s for s in len_stores(res) if s["seq"] < e["seq"] and b.dominates(s["bb"], e["bb"])]
@@ -322,3 +332,24 @@ def b9(ctx):
                     n += 1
                     ok = bool(allowed.search(b.path))
                     yield Ob(key_of("C14-B9", b.path, "len-writer"), ok, "store to handle.len in %s" % b.path, b.loc(bi, si), trivial=False)
+
+
+@rule("C14-B10", "C14", 2, "put<T>: callers are told to align_to first only `if T is not ZST`, so for a zero-sized T the buffer position has any alignment: the typed "
+      "write and the returned reference use the buffer position only under a guard size_of::<T>() != 0 (a zero-sized value needs no memory; `&mut *` of a "
+      "misaligned pointer is undefined behaviour - an abort with debug assertions - even for a ZST)")
+def b10(ctx):
+    for h, name, b in handle_methods(ctx, r"put"):
+        if name != "put":
+            continue
+        ev, res = ctx.eval(b)
+        ws = [e for e in res.log if e["kind"] == "call" and not e["chain"] and re.search(r"<impl \*mut T>::write$", e["callee"])
+              and any(c["kind"] == "call" and not c["chain"] and c["callee"].endswith("::as_mut_ptr") and mentions(e["args"][0], c["result"]) for c in res.log)]
+        ok = True
+        for e in ws:
+            fs = set(canon(f, IMMUT) for f in ctx.facts_of(ev, e))
+            o = Order(fs)
+            nz = o.le(const(1), ("size_of", "T"))
+            ok = ok and nz
+        yield Ob(key_of("C14-B10", b.path, "zst-does-not-use-the-buffer-position"), ok,
+                 "%d typed write(s) through the buffer position, %s" % (len(ws), "each under size_of T >= 1" if ok else "reachable with a zero-sized T at a position of any alignment"),
+                 ctx.loc(ws[0]) if ws else b.loc())
